@@ -15,6 +15,8 @@ class QuaHoldList(HoldList[QuaHold], QuaNoteList[QuaHold]):
     @staticmethod
     def from_yaml(dicts: List[Dict[str]]) -> QuaHoldList:
         df = pd.DataFrame(dicts)
+        df = df.reindex(df.columns.union(["StartTime"], sort=False), axis=1)
+        df["StartTime"] = df["StartTime"].fillna(0)
         df["EndTime"] -= df["StartTime"]
         df = df.rename(
             dict(
